@@ -34,11 +34,11 @@ def floors(tier):
     return f
 
 
-def gen_A(rng):
+def gen_A(rng, allow_big=True):
     """solver vocabulary, >=1 emitter"""
     from graphiq.circuit.circuit_dag import CircuitDAG
     n_e, n_p = int(rng.integers(1, 4)), int(rng.integers(0, 4))
-    if rng.random() < 0.08:
+    if allow_big and rng.random() < 0.08:
         n_e, n_p = [(int(rng.integers(11, 13)), int(rng.integers(0, 3))), (int(rng.integers(1, 3)), int(rng.integers(11, 13)))][int(rng.integers(2))]   # two-digit register indices
     prog = Program(n_e, n_p, 1)
     circ = CircuitDAG(n_emitter=n_e, n_photon=n_p, n_classical=1)
